@@ -7,6 +7,8 @@ Proofs/MultiLayer — lemmas about Model/MultiLayer:
  * the layer scan of `get` / `get_with_validation` = first layer, in order, whose own `get`
    answers with a value
  * lock traces: every call's trace on the tracker lock is a sequence of `acqW, relW` pairs
+ * memory layers with the Ttl eviction policy: a put does not depend on the victims function and
+   keeps every live entry of every other key
 -/
 import Cascette.Model.MultiLayer
 import Cascette.Proofs.MemCache
@@ -516,5 +518,129 @@ theorem getv_of_some (env : Env) (s : State) (k : Key) (ock : Option CK) {i : Na
       | _, _ => ⟨afterHit s k i, .val (some v), [.acqW, .relW]⟩ := by
   simp only [getv, h, afterHit]
   cases env.hooks <;> cases ock <;> rfl
+
+/-! ### the Ttl eviction policy: only expired entries leave, the victims function plays no role -/
+
+theorem performEviction_ttl (cfg : MemCache.Config) (hp : cfg.policy = .ttl) (s : MemCache.State) (vs vs' : List Key) :
+    MemCache.performEviction cfg s vs = MemCache.performEviction cfg s vs' := by
+  unfold MemCache.performEviction
+  rw [hp]
+
+theorem putCore_ttl (cfg : MemCache.Config) (hp : cfg.policy = .ttl) (s : MemCache.State) (k : Key) (v : Val)
+    (c : Bool) (vs vs' : List Key) : MemCache.putCore cfg s k v c vs = MemCache.putCore cfg s k v c vs' := by
+  unfold MemCache.putCore MemCache.preEvict
+  rw [performEviction_ttl cfg hp s vs vs']
+
+theorem putTtl_ttl_victims_irrelevant (vc vc' : Victims) (cfg : MemCache.Config) (ms : MemCache.State)
+    (hp : cfg.policy = .ttl) (k : Key) (v : Val) (c : Bool) :
+    Layer.putTtl vc (.mem cfg ms) k v c = Layer.putTtl vc' (.mem cfg ms) k v c := by
+  unfold Layer.putTtl
+  simp only
+  rw [putCore_ttl cfg hp _ k v c (vc cfg (MemCache.tick ms)) (vc' cfg (MemCache.tick ms))]
+
+theorem lookup_removeCounted_ne {s : MemCache.State} {q k' : Key} (hne : k' ≠ q) :
+    lookup k' (MemCache.removeCounted s q).store = lookup k' s.store := by
+  unfold MemCache.removeCounted
+  split
+  · exact lookup_erase_ne hne _
+  · rfl
+
+theorem lookup_evictKeys_notin (ks : List Key) : ∀ (s : MemCache.State) {k' : Key}, k' ∉ ks →
+    lookup k' (MemCache.evictKeys s ks).store = lookup k' s.store := by
+  induction ks with
+  | nil => intro s k' _; rfl
+  | cons q t ih =>
+    intro s k' hn
+    have h1 : k' ≠ q := fun h => hn (h ▸ List.mem_cons_self)
+    have h2 : k' ∉ t := fun h => hn (List.mem_cons_of_mem _ h)
+    show lookup k' (MemCache.evictKeys (MemCache.removeCounted s q) t).store = _
+    rw [ih _ h2, lookup_removeCounted_ne h1]
+
+theorem notin_expiredKeys {st : MemCache.Store} (hn : NoDup st) {k' : Key} {e : MemCache.Entry}
+    (he : lookup k' st = some e) (hl : e.short = false) : k' ∉ MemCache.expiredKeys st := by
+  intro hm
+  unfold MemCache.expiredKeys at hm
+  rcases List.mem_map.mp hm with ⟨⟨q, e'⟩, hf, hq⟩
+  rcases List.mem_filter.mp hf with ⟨hmem, hs⟩
+  simp only at hq hs
+  subst hq
+  have := lookup_of_mem hn hmem
+  rw [he] at this
+  cases this
+  rw [hl] at hs
+  cases hs
+
+theorem lookup_putCore_ttl_live (cfg : MemCache.Config) (hp : cfg.policy = .ttl) {s : MemCache.State}
+    (hinv : Proofs.MemCache.Inv s) (k k' : Key) (v : Val) (c : Bool) (vs : List Key) (hne : k' ≠ k)
+    {e : MemCache.Entry} (he : lookup k' s.store = some e) (hl : e.short = false) :
+    lookup k' (MemCache.putCore cfg s k v c vs).store = some e := by
+  unfold MemCache.putCore
+  rw [Proofs.MemCache.insertCounted_store, lookup_cons_ne hne, lookup_erase_ne hne]
+  unfold MemCache.preEvict MemCache.performEviction
+  rw [hp]
+  split
+  · split
+    · exact he
+    · split
+      · exact he
+      · rw [lookup_evictKeys_notin _ _ (notin_expiredKeys hinv.nodup he hl)]; exact he
+  · exact he
+
+theorem mem_peek_hit {cfg : MemCache.Config} {s : MemCache.State} {k : Key} {v : Val}
+    (h : (Layer.mem cfg s).peek k = .hit v) :
+    ∃ e, lookup k s.store = some e ∧ e.short = false ∧ e.val = v := by
+  unfold Layer.peek Layer.get at h
+  dsimp only at h
+  rw [Cascette.Proofs.MemCache.get_out] at h
+  change (match (match lookup k s.store with
+                  | some e => if e.short then none else some e.val
+                  | none => none) with | some v => LGet.hit v | none => LGet.miss) = LGet.hit v at h
+  cases hl : lookup k s.store with
+  | none => rw [hl] at h; cases h
+  | some e =>
+    rw [hl] at h
+    by_cases hs : e.short = true
+    · simp [hs] at h
+    · simp [hs] at h
+      exact ⟨e, rfl, by simpa using hs, h⟩
+
+theorem mem_peek_of_lookup {cfg : MemCache.Config} {s : MemCache.State} {k : Key} {e : MemCache.Entry}
+    (hl : lookup k s.store = some e) (hs : e.short = false) : (Layer.mem cfg s).peek k = .hit e.val := by
+  unfold Layer.peek Layer.get
+  dsimp only
+  rw [Cascette.Proofs.MemCache.get_out]
+  change (match (match lookup k s.store with
+                  | some e => if e.short then none else some e.val
+                  | none => none) with | some v => LGet.hit v | none => LGet.miss) = _
+  rw [hl]
+  simp [hs]
+
+theorem peek_putTtl_ttl_keeps_live (vc : Victims) (cfg : MemCache.Config) (ms : MemCache.State)
+    (hp : cfg.policy = .ttl) (hinv : Proofs.MemCache.Inv ms) (k k' : Key) (v v' : Val) (c : Bool) (hne : k' ≠ k)
+    (h : (Layer.mem cfg ms).peek k' = .hit v') :
+    (Layer.putTtl vc (.mem cfg ms) k v c).peek k' = .hit v' := by
+  rcases mem_peek_hit h with ⟨e, hl, hs, hv⟩
+  unfold Layer.putTtl
+  dsimp only
+  have := lookup_putCore_ttl_live cfg hp (Proofs.MemCache.inv_tick hinv) k k' v c (vc cfg (MemCache.tick ms)) hne
+    (show lookup k' (MemCache.tick ms).store = some e from hl) hs
+  rw [← hv]
+  exact mem_peek_of_lookup this hs
+
+theorem ttl_first_layer_put_keeps_served (env : Env) (s : State) (sl : Slot) (rest : List Slot)
+    (cfg : MemCache.Config) (ms : MemCache.State) (hs : s.slots = sl :: rest) (hl : sl.layer = .mem cfg ms)
+    (hp : cfg.policy = .ttl) (hinv : Proofs.MemCache.Inv ms) (k k' : Key) (v v' : Val) (hne : k' ≠ k)
+    (h : sl.layer.peek k' = .hit v') :
+    firstHit (peeks (MultiLayer.put env s k v).st k') = some v' := by
+  unfold MultiLayer.put putWith peeks
+  dsimp only
+  rw [hs]
+  show firstHit (List.map (fun sl => sl.layer.peek k') ({ sl with layer := sl.layer.put env.victims k v } :: rest)) = some v'
+  rw [List.map_cons]
+  dsimp only
+  rw [hl] at h ⊢
+  unfold Layer.put
+  rw [peek_putTtl_ttl_keeps_live env.victims cfg ms hp hinv k k' v v' _ hne h]
+  rfl
 
 end Cascette.Proofs.MultiLayer
